@@ -295,6 +295,12 @@ class Analysis:
             k = self.init.get(a)
             if k and k[0] == 'rng':
                 self._add_rng(('atInit', a))
+        # a class that takes an explicit seed must not draw from numpy's global generator (unless it seeds it from that
+        # seed): the seed would no longer determine the result
+        seeded = 'random_state' in self.params or 'random_state' in self.fit_params or 'seed' in self.params
+        if seeded and not any(k == 'npSeed' for k, _ in self.rng):
+            self.rng = [(('entropy', 'numpy global generator (%s) although the class takes a seed' % a) if k == 'npGlobal' else (k, a))
+                        for k, a in self.rng]
         return self
 
     # -- __init__ chain --------------------------------------------------------------------
